@@ -12,6 +12,7 @@ import (
 	"time"
 	"unsafe"
 
+	va "pipelined.dev/signal/verifatomic"
 	vs "pipelined.dev/signal/verifsync"
 	"verif/mc/core"
 	"verif/mc/dyn"
@@ -294,7 +295,8 @@ func c11RunCase(cs c11Case) (fs []F) {
 	old := runtime.GOMAXPROCS(1)
 	defer runtime.GOMAXPROCS(old)
 	vs.Global = poolctl.Sched{}
-	defer func() { vs.Global = nil }()
+	va.Hook = func(op string) { schedx.Point(op) }
+	defer func() { vs.Global = nil; va.Hook = nil }()
 	e := c11Explorer(cs.Cfg)
 	e.Prune = false
 	before := core.RaceErrors()
@@ -343,7 +345,8 @@ func c11Explore(c *core.Ctx, cfgs []c11Cfg, race bool, onFail func(cs c11Case, f
 	old := runtime.GOMAXPROCS(1)
 	defer runtime.GOMAXPROCS(old)
 	vs.Global = poolctl.Sched{}
-	defer func() { vs.Global = nil }()
+	va.Hook = func(op string) { schedx.Point(op) } // every atomic operation of the library is a scheduling point
+	defer func() { vs.Global = nil; va.Hook = nil }()
 	for _, cfg := range cfgs {
 		start := time.Now()
 		if c.Expired() {
